@@ -166,7 +166,11 @@ func verdicts(sc Scenario, cfg Config, r *vsched.Result) [][2]string {
 func confirm(sc Scenario, cfg Config, choices []int, key string) bool {
 	for i := 0; i < 5; i++ {
 		r := vsched.Run(choices, cfg.MaxPoints, sc.Body)
-		if r.Diverged != "" || fmt.Sprint(r.Choices) != fmt.Sprint(choices) {
+		// A replay confirms when no recorded choice was out of range and the same rule is violated again. The
+		// number of scheduling points may differ: code under test that corrupts process-global state (closing
+		// the shared blackhole channel, say) makes later executions of the same process end earlier, and that
+		// is a reproducible defect of the code, not harness nondeterminism.
+		if r.Diverged != "" {
 			return false
 		}
 		found := false
